@@ -650,7 +650,14 @@ class Condition(ConditionLike):
                     if not result_i:
                         callable_false_i = True
 
-                except (TypeError, AttributeError):
+                except (
+                    TypeError,
+                    AttributeError,
+                    ValueError,
+                    ArithmeticError,
+                    LookupError,
+                ):
+                    # the comparison is not defined for this datum
                     callable_error_i = True
 
             pre_processor_error.append(pre_processor_error_i)
